@@ -765,6 +765,7 @@ fn file<'a>(files: &'a BTreeMap<String, String>, name: &str) -> Result<&'a str, 
 
 pub fn discover(lang: Lang, files: &BTreeMap<String, String>) -> Result<Probes, String> {
     let mut out = Probes::new();
+    let mut helpers = std::sync::Arc::new(super::wasm::Helpers::new());
     match lang {
         Lang::Go => {
             let imp_t = file(files, "wit_world/wit_bindings.go")?;
@@ -776,11 +777,11 @@ pub fn discover(lang: Lang, files: &BTreeMap<String, String>) -> Result<Probes, 
             for t in crate::refabi::ALL {
                 let cam = t.camel();
                 let core = format!("wasm_import_imp_{}", t.name());
-                out.insert(("imp", t), Probe { func: imp.func(&format!("Imp{cam}"))?, opaque_sig: imp.sig(&core)?, opaque: core });
+                out.insert(("imp", t), Probe { func: imp.func(&format!("Imp{cam}"))?, opaque_sig: imp.sig(&core)?, opaque: core, helpers: helpers.clone() });
                 let user = format!("Exp{cam}");
                 out.insert(
                     ("exp", t),
-                    Probe { func: exp.func(&format!("wasm_export_wit_world_exp_{}", t.name()))?, opaque_sig: stub.sig(&user)?, opaque: user },
+                    Probe { func: exp.func(&format!("wasm_export_wit_world_exp_{}", t.name()))?, opaque_sig: stub.sig(&user)?, opaque: user, helpers: helpers.clone() },
                 );
             }
         }
@@ -790,9 +791,9 @@ pub fn discover(lang: Lang, files: &BTreeMap<String, String>) -> Result<Probes, 
             for t in crate::refabi::ALL {
                 let cam = t.camel();
                 let core = format!("wasmImportImp{cam}");
-                out.insert(("imp", t), Probe { func: src.func(&format!("Imp{cam}"))?, opaque_sig: src.sig(&core)?, opaque: core });
+                out.insert(("imp", t), Probe { func: src.func(&format!("Imp{cam}"))?, opaque_sig: src.sig(&core)?, opaque: core, helpers: helpers.clone() });
                 let user = format!("Exp{cam}");
-                out.insert(("exp", t), Probe { func: src.func(&format!("wasmExportExp{cam}"))?, opaque_sig: src.sig(&user)?, opaque: user });
+                out.insert(("exp", t), Probe { func: src.func(&format!("wasmExportExp{cam}"))?, opaque_sig: src.sig(&user)?, opaque: user, helpers: helpers.clone() });
             }
         }
         Lang::MoonBit => {
@@ -800,24 +801,23 @@ pub fn discover(lang: Lang, files: &BTreeMap<String, String>) -> Result<Probes, 
             let ffi_imp = Source::new(lang, "world/probe/ffi_import.mbt", file(files, "world/probe/ffi_import.mbt")?);
             let exp = Source::new(lang, "world/probe/ffi.mbt", file(files, "world/probe/ffi.mbt")?);
             let top = Source::new(lang, "world/probe/top.mbt", file(files, "world/probe/top.mbt")?);
-            // the sign-extension helpers must be what the semantics table says they are
-            let helper = file(files, "world/probe/ffi_import.mbt")?;
-            for (f, ins) in [("mbt_ffi_extend8", "i32.extend8_s"), ("mbt_ffi_extend16", "i32.extend16_s")] {
-                if let Some(k) = helper.find(&format!("fn {f}(")) {
-                    let rest: String = helper[k..].lines().take(2).collect::<Vec<_>>().join(" ");
-                    if !rest.contains(&format!("local.get 0 {ins})")) {
-                        return Err(format!("helper {f} is not `local.get 0 {ins}`: {rest}"));
-                    }
+            // the package's `extern "wasm"` helpers, interpreted from their inline wasm text
+            let mut hs = super::wasm::Helpers::new();
+            for (name, text) in files {
+                let n: Vec<&str> = name.split('/').filter(|s| !s.is_empty() && *s != ".").collect();
+                if n.len() == 3 && n[0] == "world" && n[1] == "probe" && n[2].ends_with(".mbt") {
+                    super::wasm::discover(name, text, &mut hs)?;
                 }
             }
+            helpers = std::sync::Arc::new(hs);
             let root_ffi = file(files, "ffi.mbt")?;
             for t in crate::refabi::ALL {
                 let cam = t.camel();
                 let core = format!("wasmImportImp{cam}");
-                out.insert(("imp", t), Probe { func: imp.func(&format!("imp_{}", t.name()))?, opaque_sig: ffi_imp.sig(&core)?, opaque: core });
+                out.insert(("imp", t), Probe { func: imp.func(&format!("imp_{}", t.name()))?, opaque_sig: ffi_imp.sig(&core)?, opaque: core, helpers: helpers.clone() });
                 let user = format!("exp_{}", t.name());
                 let glue = format!("wasmExportExp{cam}");
-                out.insert(("exp", t), Probe { func: exp.func(&glue)?, opaque_sig: top.sig(&user)?, opaque: user });
+                out.insert(("exp", t), Probe { func: exp.func(&glue)?, opaque_sig: top.sig(&user)?, opaque: user, helpers: helpers.clone() });
                 // the root package re-exports the glue through a forwarder without conversions
                 let k = root_ffi.find(&format!("fn {glue}(")).ok_or(format!("ffi.mbt: no forwarder {glue}"))?;
                 let o = root_ffi[k..].find('{').ok_or("forwarder without body")? + k;
@@ -834,11 +834,11 @@ pub fn discover(lang: Lang, files: &BTreeMap<String, String>) -> Result<Probes, 
             for t in crate::refabi::ALL {
                 let cam = t.camel();
                 let core = format!("__import_imp{cam}");
-                out.insert(("imp", t), Probe { func: src.func(&format!("imp{cam}"))?, opaque_sig: src.sig(&core)?, opaque: core });
+                out.insert(("imp", t), Probe { func: src.func(&format!("imp{cam}"))?, opaque_sig: src.sig(&core)?, opaque: core, helpers: helpers.clone() });
                 let user = format!("exp{cam}_Impl");
                 out.insert(
                     ("exp", t),
-                    Probe { func: src.func(&format!("__export_exp{cam}"))?, opaque_sig: src.d_alias_sig(&format!("exp{cam}_Sig"))?, opaque: user },
+                    Probe { func: src.func(&format!("__export_exp{cam}"))?, opaque_sig: src.d_alias_sig(&format!("exp{cam}_Sig"))?, opaque: user, helpers: helpers.clone() },
                 );
             }
         }
